@@ -14,6 +14,7 @@ import (
 	"path/filepath"
 	"sort"
 	"strings"
+	"time"
 
 	"golang.org/x/tools/go/packages"
 	"golang.org/x/tools/go/ssa"
@@ -38,6 +39,15 @@ type World struct {
 	modUnk   map[*ssa.Function]bool
 	pathMemo map[*ssa.Function][]*Path
 	pathErr  map[*ssa.Function]error
+
+	NoInline  bool
+	inlBudget int
+	boundary  map[*ssa.Function]string
+	inlMemo   map[*ssa.Function]bool
+	inlIfs    map[*ssa.Function]int
+	addrTaken map[*ssa.Function]bool
+	callers   map[*ssa.Function][]*ssa.Function
+	recursive map[*ssa.Function]bool
 }
 
 func LoadWorld(root string) (*World, error) {
@@ -89,6 +99,10 @@ func LoadWorld(root string) (*World, error) {
 	w.computeMods()
 	w.pathMemo = map[*ssa.Function][]*Path{}
 	w.pathErr = map[*ssa.Function]error{}
+	w.boundary = map[*ssa.Function]string{}
+	w.inlMemo = map[*ssa.Function]bool{}
+	w.inlIfs = map[*ssa.Function]int{}
+	w.computeCallFacts()
 	return w, nil
 }
 
@@ -108,7 +122,11 @@ func (w *World) Paths(fn *ssa.Function) ([]*Path, error) {
 	if p, ok := w.pathMemo[fn]; ok {
 		return p, w.pathErr[fn]
 	}
+	t0 := time.Now()
 	p, err := ExplorePaths(w, fn)
+	if os.Getenv("GMARSLINT_TIMING") != "" && time.Since(t0) > 200*time.Millisecond {
+		fmt.Fprintf(os.Stderr, "timing: %s %d paths %v\n", fn.Name(), len(p), time.Since(t0))
+	}
 	w.pathMemo[fn] = p
 	w.pathErr[fn] = err
 	return p, err
